@@ -18,6 +18,7 @@
  Rp presence      : optional numeric fields are tested with `is None` / membership, never by truthiness (0 is a value).
  R7 channel order : SpectralInformation re-orders every per-channel array (incl. delta_pdb_per_channel) with one argsort.
  Rk field/key     : the parameter classes store every configuration entry under its own name (frozen rename table).
+ Rx export keys   : each loaded parameter is exported under the key its loader reads it from.
 """
 import ast
 
@@ -364,6 +365,21 @@ def rk_field_key(ctx):
     ctx.need('Rk.field-key', 5)
 
 
+WHY_EXPORT = 'after save and reload the ROADM would equalise that degree with another policy or value'
+
+def rx_export_keys(ctx):
+    """Rx: an element exports each loaded parameter under the key its loader reads it from (to_json key -> attribute -> params
+    class -> configuration key): a saved and reloaded network carries every table under its own policy / name"""
+    from ..fieldkey import export_key_rule
+    repo = ctx.repo
+    P = 'gnpy.core.parameters'
+    E = 'gnpy.core.elements'
+    pairs = [(repo.cls('Roadm', E), [repo.cls('RoadmParams', P)]), (repo.cls('Fiber', E), [repo.cls('FiberParams', P)]),
+             (repo.cls('Fused', E), [repo.cls('FusedParams', P)])]
+    export_key_rule(ctx, 'Rx.export-keys', pairs, WHY_EXPORT)
+    ctx.need('Rx.export-keys', 3)
+
+
 from ..memo import rule_for as _memo_rule
 
 RULES_MEMO = ('Rm.memo', _memo_rule('C06', 'the equalisation computed for another spectrum or target would be applied'))
@@ -373,4 +389,4 @@ from ..presence import rule_for as _presence_rule
 
 RULES_PRESENCE = ('Rp.presence', _presence_rule('C06', 'a ROADM target of exactly 0 dBm would be ignored and another target applied'))
 
-RULES = [('R6.stateless', r6_stateless), ('R1.formula', r1_formula), ('R2.policy', r2_policy), ('R4.one-policy', r4_one_policy), ('R5.design', r5_design), RULES_MEMO, RULES_PRESENCE, ('R7.channel-order', r7_channel_order), ('Rk.field-key', rk_field_key)]
+RULES = [('R6.stateless', r6_stateless), ('R1.formula', r1_formula), ('R2.policy', r2_policy), ('R4.one-policy', r4_one_policy), ('R5.design', r5_design), RULES_MEMO, RULES_PRESENCE, ('R7.channel-order', r7_channel_order), ('Rk.field-key', rk_field_key), ('Rx.export-keys', rx_export_keys)]
